@@ -5,7 +5,7 @@
 patch="$1"; shift
 cd /repo || exit 2
 if [ -n "$(git status --porcelain --untracked-files=no)" ]; then echo "/repo not clean"; exit 2; fi
-if ! git apply --3way "$patch" 2>/tmp/apply.err && ! git apply "$patch" 2>>/tmp/apply.err; then echo "APPLY-FAILED $patch"; cat /tmp/apply.err; git checkout -- . ; git reset -q; exit 3; fi
+if ! git apply --3way "$patch" 2>/tmp/apply.err && ! git apply "$patch" 2>>/tmp/apply.err; then echo "APPLY-FAILED $patch"; cat /tmp/apply.err; git reset -q --hard HEAD; exit 3; fi
 git reset -q
 for p in "$@"; do
 	out=$(cd /verif && ./check "$p" quick 2>&1); code=$?
@@ -13,5 +13,5 @@ for p in "$@"; do
 	elif [ $code -eq 0 ]; then echo "MISSED $p: $(echo "$out" | tail -1)";
 	else echo "ERROR($code) $p: $(echo "$out" | tail -5)"; fi
 done
-cd /repo && git checkout -- . && git status --porcelain --untracked-files=no
+cd /repo && git reset -q --hard HEAD && git status --porcelain --untracked-files=no
 rm -rf /verif/replays
